@@ -156,6 +156,29 @@ fn pk_case(rec: &mut Rec, ctx: &Ctx, idx: u64, rng: &mut ChaCha20Rng) {
           }
         }
       }
+      // the same JSON value re-emitted by another library: members in another order
+      {
+        let v: serde_json::Value = serde_json::to_value(&ev).unwrap_or_default();
+        let out_s = serde_json::to_string(&v["output"]).unwrap_or_default();
+        let c_s = serde_json::to_string(&v["proof"]["c"]).unwrap_or_default();
+        let s_s = serde_json::to_string(&v["proof"]["s"]).unwrap_or_default();
+        for js in [
+          format!("{{\"proof\":{{\"s\":{},\"c\":{}}},\"output\":{}}}", s_s, c_s, out_s),
+          format!("{{\"output\":{},\"proof\":{{\"s\":{},\"c\":{}}}}}", out_s, s_s, c_s),
+          format!("{{ \"proof\" : {{ \"c\" : {} , \"s\" : {} }} ,\n \"output\" : {} }}", c_s, s_s, out_s),
+        ] {
+          rec.ev("json_reordered_members");
+          match serde_json::from_str::<Evaluation>(&js) {
+            Ok(e1) => {
+              let same = e1.output == ev.output && e1.proof.as_ref().map(|p| p.serialize_to_bincode().unwrap_or_default()) == Some(pb.clone());
+              if !same || !Client::verify(&back, &bp, &e1, tag) {
+                rec.violation("evaluation-json-roundtrip:member-order", "an Evaluation whose JSON members come in another order restores to a different value / does not verify".into(), json!({"json": js}));
+              }
+            }
+            Err(er) => rec.violation("evaluation-json-roundtrip:member-order", format!("reordered JSON rejected: {}", er), json!({"json": js})),
+          }
+        }
+      }
       let ps = serde_json::to_string(&bp).unwrap_or_default();
       match serde_json::from_str::<Point>(&ps) {
         Ok(p2) if p2 == bp => {}
